@@ -35,7 +35,7 @@ func fuzzJudge(t *testing.T, c Case) {
 }
 
 var hostile = []string{"1 /* x *", "{} ##", "##", "@a |", "\"\" // {type: \"\"}", "[1] /* x *", "[1] /*00", "1e18446744073709551617", "{@a: 1}", "@a | @a",
-	"1 // {or: [{type: \"enum\", enum: [1,2]}]}", "{ // {allOf: \"@a\"}\n}", "1 /* {enum: [ // c\n 1]} */", "\"\\u00", "tru", "1.", "-", "/\\/", "//", "#", "{\"a\":", "[1,", "{ // {additionalProperties: \"@a\"}\n @a: 1\n}"}
+	"1 // {or: [{type: \"enum\", enum: [1,2]}]}", "{ // {allOf: \"@a\"}\n}", "1 /* {enum: [ // c\n 1]} */", "\"\\u00", "tru", "1.", "-", "/\\/", "//", "#", "{\"a\":", "[1,", "{ // {additionalProperties: \"@a\"}\n @a: 1\n}", "/[^\\x00-\\x7F]/", "/[^\\s\\S]+/"}
 
 func seed(f *testing.F) {
 	for _, h := range hostile {
